@@ -205,7 +205,9 @@ impl RecvWindow {
         self.check_data_integrity(hdr, payload, mtu)?;
 
         if let Some(msg_len) = hdr.get_msg_len() {
-            if msg_len <= mtu && !hdr.is_final() {
+            // The segment size (`mtu`) covers the BTP header too, so an SDU fits in a single
+            // segment only if there is room for it after this segment's header
+            if msg_len as usize + hdr.len() <= mtu as usize && !hdr.is_final() {
                 warn!("RX data integrity failure: An SDU that fits in a single BTP segment must be final");
                 Err(ErrorCode::InvalidData)?;
             }
